@@ -55,7 +55,7 @@ bool ParentedEntity::hasAncestor(const ParentedEntityPtr &entity) const
 {
     bool hasAncestor = false;
     ParentedEntityPtr parent = pFunc()->mParent.lock();
-    if (parent == entity) {
+    if ((parent != nullptr) && (parent == entity)) {
         hasAncestor = true;
     } else if (parent) {
         hasAncestor = parent->hasAncestor(entity);
